@@ -45,7 +45,8 @@ ASSUMPTIONS = ['OpenSSL / the ssl module implement TLS and certificate verificat
 DEADLINE = 15.0
 _FX: Dict[str, Any] = {}
 LONG_NAME = 'l' + 'o' * 40 + 'ng.' + 'sub' * 8 + '.good.test'      # 78 octets: longer than an X.509 commonName may be (64), a valid DNS name
-GOOD_NAMES = ['good.test', 'a.good.test', 'localhost', 'optout.good.test', LONG_NAME]
+FAIL_NAME = 'genfail.good.test'      # certificate generation for this host fails (a directory sits where its key file would go)
+GOOD_NAMES = ['good.test', 'a.good.test', 'localhost', 'optout.good.test', LONG_NAME, FAIL_NAME]
 
 
 def sh(*cmd: str, **kw: Any) -> None:
@@ -121,6 +122,7 @@ def fixture() -> Dict[str, Any]:
     sh('openssl', 'ca', '-batch', '-notext', '-config', P('ca.cnf'), '-cert', P('oca-cert.pem'), '-keyfile', P('oca-key.pem'), '-in', P('expired.csr'),
        '-out', P('expired-cert.pem'), '-startdate', '20200101000000Z', '-enddate', '20200201000000Z', '-extfile', P('expired.ext'))
     os.makedirs(P('certs'))
+    os.makedirs(os.path.join(P('certs'), FAIL_NAME + '.pub'))      # openssl cannot write the key pair for this host: generation fails
     _FX.clear()
     _FX.update(pid=os.getpid(), dir=d, P=P, origins={}, executors={})
     # name resolution for *.test
@@ -422,6 +424,31 @@ def _complete(x: bytes) -> bool:
         return False
 
 
+def _worker_blocked_at(insecure: bool) -> Optional[str]:
+    import sys
+    ex = _FX.get('executors', {}).get(insecure)
+    if ex is None or not ex['thread'].is_alive():
+        return None
+
+    def sample() -> Optional[str]:
+        fr = sys._current_frames().get(ex['thread'].ident)
+        inner = None
+        while fr is not None:
+            fn = fr.f_code.co_filename
+            if '/proxy/' in fn and '/vf/' not in fn:
+                inner = '%s:%d' % (fn.split('/proxy/', 1)[1], fr.f_lineno)
+                break
+            fr = fr.f_back
+        return inner
+    a = sample()
+    time.sleep(0.7)
+    b_ = sample()
+    # the idle loop sits in core/work/threadless.py (selector.select / asyncio); anything else, unchanged over 0.7 s, is a block
+    if a and a == b_ and not a.startswith('core/work/threadless.py'):
+        return a
+    return None
+
+
 def evaluate(c: Dict[str, Any]) -> Tuple[List[Any], Dict[str, Any]]:
     r = converse(c)
     bad = c['origin'] not in ('good', 'oddsubject')
@@ -433,7 +460,22 @@ def evaluate(c: Dict[str, Any]) -> Tuple[List[Any], Dict[str, Any]]:
     if not r.get('executor_alive', True):
         _FX['executors'].pop(c['insecure'], None)
         return [('worker-died', feat, {'stage': r.get('stage')}, None)], info
-    timed_out = r.get('connect_status') == 'timeout' or r.get('response_status') == 'timeout'
+    timed_out = r.get('connect_status') == 'timeout' or r.get('response_status') == 'timeout' or 'timeout' in str(r.get('handshake'))
+    if timed_out:
+        # a deadline says nothing by itself; WHERE the worker thread sits does: blocked inside proxy code (same frame in two
+        # samples, not in its selector) means one connection has wedged the worker - e.g. waiting for a lock nobody releases
+        where = _worker_blocked_at(c['insecure'])
+        if where:
+            _FX['executors'].pop(c['insecure'], None)      # this executor is lost; later cases get a fresh one
+            return [('worker-blocked-inside-proxy-code', dict(feat, where=where.split(':')[0]), {'stage': r.get('stage'), 'at': where}, 'event loop running')], info
+    if c['host'] == FAIL_NAME and not optout:
+        # no certificate can be issued for this host: the client must be let go, nothing may be relayed (and the worker goes on)
+        info['nt'] = True
+        if r.get('handshake') == 'ok':
+            out.append(('handshake-completed-without-a-generated-certificate', feat, r.get('peer_cert'), None))
+        if b''.join(x.get('app_bytes', b'') for x in r.get('origin_conns', [])):
+            out.append(('application-data-relayed-although-interception-failed', feat, None, b''))
+        return out, info
     origin_app = b''.join(x.get('app_bytes', b'') for x in r.get('origin_conns', []))
     client_app = r.get('client_app', b'')
     must_refuse = bad and not c['insecure'] and not optout
@@ -521,7 +563,7 @@ def cleanup() -> None:
 @st.composite
 def cases(draw: Any) -> Dict[str, Any]:
     origin = draw(st.sampled_from(['good', 'good', 'good', 'selfsigned', 'wrongname', 'expired', 'osca', 'oddsubject']))
-    host = draw(st.sampled_from(['good.test', 'a.good.test', 'localhost', 'optout.good.test', '127.0.0.1', '[::1]', LONG_NAME]))
+    host = draw(st.sampled_from(['good.test', 'a.good.test', 'localhost', 'optout.good.test', '127.0.0.1', '[::1]', LONG_NAME, FAIL_NAME]))
     req = draw(G.request_spec(form='origin', host=host.encode(), framings=('none', 'cl', 'chunked'), max_body=300, max_headers=5,
                               versions=(b'HTTP/1.1',), plain_chunked=True))
     raw_len = len(G.render(req))
